@@ -318,9 +318,20 @@ def main(run):
         data.qx_data = qxs; data.qy_data = qys; data.q_data = np.sqrt(qxs ** 2 + qys ** 2)
         data.dqx_data = np.array([rng.uniform(0.002, 0.03) for _ in pts]); data.dqy_data = np.array([rng.uniform(0.002, 0.03) for _ in pts])
         data.mask = np.zeros(n0, dtype=bool) if getattr(data, "mask", None) is not None else None
+        # one level has NO radial width at all (a column of zeros), the next no tangential width: the cloud is then a
+        # line across / along q, still the documented Gaussian in the direction that has a width
+        if acc == "med":
+            data.dqx_data = np.zeros(n0); stats["cloud_zero_column"] = stats.get("cloud_zero_column", 0) + 1
+        elif acc == "high":
+            data.dqy_data = np.zeros(n0); stats["cloud_zero_column"] = stats.get("cloud_zero_column", 0) + 1
         with np.errstate(all="ignore"):
             res = Pinhole2D(data=data, accuracy=acc)
             phi_q = np.arctan(qys / qxs)
+        if np.asarray(res.q_calc[0]).size != res.nr * res.nphi * n0 if hasattr(res, "nr") and res.q_calc is not None else True:
+            run.add(Finding("C04:2d-width-ignored", "Pinhole2D (%s) with %s: the theory is requested at %d points for %d pixels - no sampling cloud, the width that IS given is ignored" % (
+                acc, "radial widths all zero, tangential widths positive" if acc == "med" else ("tangential widths all zero, radial widths positive" if acc == "high" else "positive widths"),
+                np.asarray(res.q_calc[0]).size, n0), dict(accuracy=acc, dqx=list(map(float, data.dqx_data)), dqy=list(map(float, data.dqy_data)))))
+            continue
         nr, nphi = res.nr, res.nphi
         nb = nr * nphi
         QX = np.asarray(res.q_calc[0]).reshape(nb, n0); QY = np.asarray(res.q_calc[1]).reshape(nb, n0)
